@@ -298,7 +298,18 @@ func sortedAfter(info *types.Info, rs *ast.RangeStmt, stack []ast.Node, o types.
 			continue
 		}
 		sorted := false
+		// the sort must be unconditional: a sort nested in a branch or loop of this statement orders the slice on some
+		// paths only (accepted: a guard that depends on nothing but the slice's length — short slices are sorted already)
+		conditional := false
 		ast.Inspect(st, func(x ast.Node) bool {
+			switch g := x.(type) {
+			case *ast.IfStmt:
+				if g.Init != nil || g.Else != nil || !onlyLenOf(info, g.Cond, o) {
+					conditional = true
+				}
+			case *ast.ForStmt, *ast.RangeStmt, *ast.SwitchStmt, *ast.TypeSwitchStmt, *ast.SelectStmt:
+				conditional = true
+			}
 			call, ok := x.(*ast.CallExpr)
 			if !ok {
 				return true
@@ -328,6 +339,9 @@ func sortedAfter(info *types.Info, rs *ast.RangeStmt, stack []ast.Node, o types.
 			}
 			return true
 		})
+		if sorted && conditional {
+			return false, "the slice is sorted only under a condition (" + strings.TrimSpace(shortStmt(st)) + "): on the other paths it keeps the map's iteration order"
+		}
 		if sorted {
 			return true, ""
 		}
@@ -575,4 +589,26 @@ func derivesFromAppend(info *types.Info, body *ast.BlockStmt, e ast.Expr) bool {
 		return true
 	})
 	return found
+}
+
+// onlyLenOf: the expression mentions no variable other than o, and o only as the operand of len.
+func onlyLenOf(info *types.Info, e ast.Expr, o types.Object) bool {
+	ok := true
+	ast.Inspect(e, func(x ast.Node) bool {
+		switch v := x.(type) {
+		case *ast.CallExpr:
+			if core.IsBuiltinCall(info, v, "len") && len(v.Args) == 1 && core.ObjOf(info, v.Args[0]) == o {
+				return false
+			}
+			ok = false
+		case *ast.Ident:
+			if obj := info.Uses[v]; obj != nil {
+				if _, isVar := obj.(*types.Var); isVar {
+					ok = false
+				}
+			}
+		}
+		return true
+	})
+	return ok
 }
